@@ -379,6 +379,12 @@ impl<'a> ExpressionVisitor<'a> for CodeBuilder<'a> {
             BuiltinFunctionKind::ConsoleLog(_) => {
                 // Not all types can be sent to QDebug stream, but it's unlikely we would
                 // use such type in QML.
+                if let Some(a) = arguments.iter().find(|a| a.type_desc() == TypeDesc::VOID) {
+                    return Err(ExpressionError::OperationOnUnsupportedType(
+                        "console output".to_owned(),
+                        a.type_desc(),
+                    ));
+                }
                 Ok((TypeKind::VOID, arguments))
             }
             BuiltinFunctionKind::Max | BuiltinFunctionKind::Min => {
